@@ -78,7 +78,7 @@ def replay_invariants(data):
     c2 = _wigner_rotate(c, lmax, 0.3, 1.1, -0.7)
     for kinds in ("N", "P"):
         a, b = make_invariants(lmax, c, kinds=kinds), make_invariants(lmax, c2, kinds=kinds)
-        if a.shape != b.shape or (a.size and not np.allclose(a, b, atol=1e-8 * max(1, np.abs(a).max()))):
+        if a.shape != b.shape or (a.size and not np.allclose(a, b, rtol=0, atol=1e-8 * max(1, np.abs(a).max()))):
             bad.append("%s invariants change under a rotation (max diff %.3g)" % (kinds, np.abs(a - b).max() if a.shape == b.shape else -1))
     return bool(bad), bad
 
@@ -284,7 +284,7 @@ def part_P(ctx, LP):
     # translator validation + Clebsch-Gordan values against exact ones (ground)
     rng = np.random.default_rng(ctx.seed)
     cc = rng.normal(size=25) + 1j * rng.normal(size=25)
-    ctx.compiled_check("pyx2py(_invariants.pyx) == compiled module on random coefficients (l_max=4)", np.allclose(so.p_invariants_c(cc), mc.p_invariants_c(cc), atol=1e-12))
+    ctx.compiled_check("pyx2py(_invariants.pyx) == compiled module on random coefficients (l_max=4)", np.allclose(so.p_invariants_c(cc), mc.p_invariants_c(cc), rtol=0, atol=1e-12))
     worst = 0.0
     ncg = 0
     for l1 in range(0, 4):
